@@ -43,7 +43,7 @@ pub fn judge(x: &Vec<u8>, st: &mut Stats) -> Verdict {
                 ))
             }
             Ok(Err(e)) => Err(Fail::new(format!("rebuild-fails:{}", name), shape2(x), entry, "Ok(original bytes)", format!("Err({:?})", e.kind()))),
-            Err(_) => Ok(()), // panics: C03
+            Err(p) => Err(Fail::new(format!("rebuild-panics:{}", name), shape2(x), entry, "Ok(original bytes)", format!("panic: {}", p))),
         }
     };
     use crate::engine::guard;
